@@ -16,16 +16,16 @@ PROP = {
          "cases": {"quick": 4000, "thorough": 400000}, "min_shard": 1000},
         # agent half of supply lanes: the real SupplyLane (push / sync / write_to_buffer)
         {"name": "sup", "crate": "core", "bin": "sv-sup", "machine": "sup",
-         "cases": {"quick": 4000, "thorough": 400000}, "min_shard": 1000},
+         "cases": {"quick": 4000, "thorough": 200000}, "min_shard": 1000},
         # agent half of command + supply lanes: the real agent task (AgentModel) with the harness as the runtime
         {"name": "cl", "crate": "core", "bin": "sv-cl", "machine": "cl",
-         "cases": {"quick": 3000, "thorough": 300000}, "min_shard": 500, "nontrivial_min_ops": 5},
+         "cases": {"quick": 3000, "thorough": 100000}, "min_shard": 500, "nontrivial_min_ops": 5},
         # runtime half of command lanes: the real read task (read_task / LaneSender) under AgentRouteTask
         {"name": "rf", "crate": "core", "bin": "sv-rf", "machine": "rf",
-         "cases": {"quick": 3000, "thorough": 300000}, "min_shard": 500, "nontrivial_min_ops": 5},
+         "cases": {"quick": 3000, "thorough": 100000}, "min_shard": 500, "nontrivial_min_ops": 5},
         # the same with racing remotes and small lane buffers (order across remotes is tokio's): monitor only
         {"name": "race-rf", "crate": "core", "bin": "sv-rf", "machine": "rf", "modes": ["monitor"],
-         "gen_args": ["race"], "cases": {"quick": 3000, "thorough": 300000}, "min_shard": 500,
+         "gen_args": ["race"], "cases": {"quick": 3000, "thorough": 100000}, "min_shard": 500,
          "nontrivial_min_ops": 5},
     ],
     "level_text": "Proof. Supply, runtime: for every registry and every interleaving of events on any lanes, link "
